@@ -14,14 +14,15 @@ Record config := mkCfg {
   c_mods : list Z;           (* texts of the required modules *)
   c_defs : list Z;           (* -D definitions *)
   c_prag : list Z;           (* -P pragmas *)
-  c_cflags : list Z;         (* --cflags *)
+  c_cflags : list Z;         (* --cflags / CFLAGS / ## cflags *)
+  c_ldflags : list Z;        (* link options: --ldflags / LDFLAGS / ## ldflags / linkdir / linklib *)
   c_release : bool;          (* --release *)
   c_world : Z                (* the compiler behind the cc name and the headers / extra C files it reads *)
 }.
 
 Inductive edit :=
 | EMain (z : Z) | EModule (k : nat) (z : Z) | EDefine (l : list Z) | EPragma (l : list Z)
-| ECflags (l : list Z) | ERelease (b : bool) | EWorld (w : Z).
+| ECflags (l : list Z) | ELdflags (l : list Z) | ERelease (b : bool) | EWorld (w : Z).
 
 Fixpoint set_nth (k : nat) (z : Z) (l : list Z) : list Z :=
   match l, k with
@@ -32,13 +33,14 @@ Fixpoint set_nth (k : nat) (z : Z) (l : list Z) : list Z :=
 
 Definition apply_edit (e : edit) (c : config) : config :=
   match e with
-  | EMain z => mkCfg z (c_mods c) (c_defs c) (c_prag c) (c_cflags c) (c_release c) (c_world c)
-  | EModule k z => mkCfg (c_main c) (set_nth k z (c_mods c)) (c_defs c) (c_prag c) (c_cflags c) (c_release c) (c_world c)
-  | EDefine l => mkCfg (c_main c) (c_mods c) l (c_prag c) (c_cflags c) (c_release c) (c_world c)
-  | EPragma l => mkCfg (c_main c) (c_mods c) (c_defs c) l (c_cflags c) (c_release c) (c_world c)
-  | ECflags l => mkCfg (c_main c) (c_mods c) (c_defs c) (c_prag c) l (c_release c) (c_world c)
-  | ERelease b => mkCfg (c_main c) (c_mods c) (c_defs c) (c_prag c) (c_cflags c) b (c_world c)
-  | EWorld w => mkCfg (c_main c) (c_mods c) (c_defs c) (c_prag c) (c_cflags c) (c_release c) w
+  | EMain z => mkCfg z (c_mods c) (c_defs c) (c_prag c) (c_cflags c) (c_ldflags c) (c_release c) (c_world c)
+  | EModule k z => mkCfg (c_main c) (set_nth k z (c_mods c)) (c_defs c) (c_prag c) (c_cflags c) (c_ldflags c) (c_release c) (c_world c)
+  | EDefine l => mkCfg (c_main c) (c_mods c) l (c_prag c) (c_cflags c) (c_ldflags c) (c_release c) (c_world c)
+  | EPragma l => mkCfg (c_main c) (c_mods c) (c_defs c) l (c_cflags c) (c_ldflags c) (c_release c) (c_world c)
+  | ECflags l => mkCfg (c_main c) (c_mods c) (c_defs c) (c_prag c) l (c_ldflags c) (c_release c) (c_world c)
+  | ELdflags l => mkCfg (c_main c) (c_mods c) (c_defs c) (c_prag c) (c_cflags c) l (c_release c) (c_world c)
+  | ERelease b => mkCfg (c_main c) (c_mods c) (c_defs c) (c_prag c) (c_cflags c) (c_ldflags c) b (c_world c)
+  | EWorld w => mkCfg (c_main c) (c_mods c) (c_defs c) (c_prag c) (c_cflags c) (c_ldflags c) (c_release c) w
   end.
 
 Section Edits.
@@ -47,36 +49,54 @@ Section Edits.
   Variable hash : Z -> Z -> list Z -> Z.                  (* stringer.hash(code .. ccinfo .. command) *)
   Variable ccinfo_of : Z -> Z.
   Variables base rel dev : list Z.                        (* cflags_base, cflags_release, cflags_devel *)
+  Variable covers : bool.    (* the heading records the command compile_binary executes (scraped: both use the same get_compiler_cflags) *)
 
-  (* get_compiler_cflags: base flags, then the flags of the build mode, then --cflags *)
-  Definition mkcmd (c : config) : list Z := base ++ (if c_release c then rel else dev) ++ c_cflags c.
+  (* what compile_binary executes: base flags, the flags of the build mode, --cflags, then the link options *)
+  Definition exec_cmd (c : config) : list Z := base ++ (if c_release c then rel else dev) ++ c_cflags c ++ c_ldflags c.
+  (* what compile_code records in the heading *)
+  Definition mkcmd (c : config) : list Z :=
+    if covers then exec_cmd c else base ++ (if c_release c then rel else dev) ++ c_cflags c.
   Definition code_of (c : config) : Z := gen (c_main c) (c_mods c) (c_defs c) (c_prag c).
   (* compile_code: heading (command, hash) .. code *)
   Definition text_of (c : config) : list Z * Z * Z :=
     (mkcmd c, hash (code_of c) (ccinfo_of (c_world c)) (mkcmd c), code_of c).
-  Definition behaviour (c : config) : Z := exec (code_of c) (mkcmd c) (c_world c).
+  Definition behaviour (c : config) : Z := exec (code_of c) (exec_cmd c) (c_world c).
 
   Definition keeps_world (e : edit) : bool := match e with EWorld _ => false | _ => true end.
 
   (* edits of the source, of a required module, of -D / -P / --cflags / --release: if the behaviour
      changes, the text of the C file changes (so compile_code rewrites it) *)
   Theorem edit_shows_in_text_lemma e c :
+    covers = true ->
     keeps_world e = true -> behaviour (apply_edit e c) <> behaviour c -> text_of (apply_edit e c) <> text_of c.
   Proof.
-    intros K B T. apply B. unfold behaviour. unfold text_of in T. inversion T as [[Tc Th Tg]].
+    intros CV K B T. apply B. unfold behaviour. unfold text_of, mkcmd in T. rewrite CV in T. inversion T as [[Tc Th Tg]].
     rewrite Tc, Tg. destruct e; simpl in *; try reflexivity; discriminate.
   Qed.
+
+  (* if the heading does not record the link options, an edit of them alone leaves the text as it is *)
+  Theorem link_edit_leaves_text_lemma l c :
+    covers = false -> text_of (apply_edit (ELdflags l) c) = text_of c.
+  Proof. intros CV. unfold text_of, mkcmd, code_of. rewrite CV. reflexivity. Qed.
 
   (* --cflags and --release always change the command that the heading records *)
   Theorem cflags_edit_changes_command_lemma l c : l <> c_cflags c -> mkcmd (apply_edit (ECflags l) c) <> mkcmd c.
   Proof.
-    unfold mkcmd; simpl. intros N E. apply app_inv_head in E. apply app_inv_head in E. congruence.
+    unfold mkcmd, exec_cmd; simpl. intros N E. destruct covers.
+    - apply app_inv_head in E. apply app_inv_head in E. apply app_inv_tail in E. congruence.
+    - apply app_inv_head in E. apply app_inv_head in E. congruence.
+  Qed.
+  Theorem ldflags_edit_changes_command_lemma l c :
+    covers = true -> l <> c_ldflags c -> mkcmd (apply_edit (ELdflags l) c) <> mkcmd c.
+  Proof.
+    unfold mkcmd, exec_cmd; simpl. intros -> N E. do 3 apply app_inv_head in E. congruence.
   Qed.
   Theorem release_toggle_changes_command_lemma b c :
     rel <> dev -> b <> c_release c -> mkcmd (apply_edit (ERelease b) c) <> mkcmd c.
   Proof.
-    unfold mkcmd; simpl. intros N NB E. apply app_inv_head in E. apply app_inv_tail in E.
-    destruct b, (c_release c); congruence.
+    unfold mkcmd, exec_cmd; simpl. intros N NB E. destruct covers.
+    - apply app_inv_head in E. rewrite !app_assoc in E. do 2 apply app_inv_tail in E. destruct b, (c_release c); congruence.
+    - apply app_inv_head in E. apply app_inv_tail in E. destruct b, (c_release c); congruence.
   Qed.
 
   (* a change of the compiler behind the cc name shows through the hash *)
@@ -98,10 +118,21 @@ Proof. vm_compute. discriminate. Qed.
 
 (* non-vacuity: a header edit that changes the behaviour and nothing nelua looks at *)
 Example header_edit_changes_behaviour_only :
-  let c := mkCfg 1 [] [] [] [] false 0 in
+  let c := mkCfg 1 [] [] [] [] [] false 0 in
   let exec := fun (code : Z) (cmd : list Z) (w : Z) => code + w in
   behaviour (fun m _ _ _ => m) exec [] GCC_RELEASE_FLAGS GCC_DEVEL_FLAGS (apply_edit (EWorld 10) c)
     <> behaviour (fun m _ _ _ => m) exec [] GCC_RELEASE_FLAGS GCC_DEVEL_FLAGS c /\
-  text_of (fun m _ _ _ => m) (fun _ _ _ => 0) (fun w => w mod 10) [] GCC_RELEASE_FLAGS GCC_DEVEL_FLAGS (apply_edit (EWorld 10) c)
-    = text_of (fun m _ _ _ => m) (fun _ _ _ => 0) (fun w => w mod 10) [] GCC_RELEASE_FLAGS GCC_DEVEL_FLAGS c.
+  text_of (fun m _ _ _ => m) (fun _ _ _ => 0) (fun w => w mod 10) [] GCC_RELEASE_FLAGS GCC_DEVEL_FLAGS true (apply_edit (EWorld 10) c)
+    = text_of (fun m _ _ _ => m) (fun _ _ _ => 0) (fun w => w mod 10) [] GCC_RELEASE_FLAGS GCC_DEVEL_FLAGS true c.
+Proof. vm_compute. split; [discriminate|reflexivity]. Qed.
+
+(* non-vacuity of the link-flag limit: with a heading that leaves the link options out, choosing another
+   library directory changes what runs and nothing of the text *)
+Example link_edit_changes_behaviour_only :
+  let c := mkCfg 1 [] [] [] [] [1] false 0 in
+  let exec := fun (code : Z) (cmd : list Z) (w : Z) => code + fold_right Z.add 0 cmd in
+  behaviour (fun m _ _ _ => m) exec [] GCC_RELEASE_FLAGS GCC_DEVEL_FLAGS (apply_edit (ELdflags [2]) c)
+    <> behaviour (fun m _ _ _ => m) exec [] GCC_RELEASE_FLAGS GCC_DEVEL_FLAGS c /\
+  text_of (fun m _ _ _ => m) (fun _ _ _ => 0) (fun w => w) [] GCC_RELEASE_FLAGS GCC_DEVEL_FLAGS false (apply_edit (ELdflags [2]) c)
+    = text_of (fun m _ _ _ => m) (fun _ _ _ => 0) (fun w => w) [] GCC_RELEASE_FLAGS GCC_DEVEL_FLAGS false c.
 Proof. vm_compute. split; [discriminate|reflexivity]. Qed.
